@@ -180,6 +180,12 @@ pub fn run_check(ctx: &mut Ctx) {
 }
 
 pub fn replay(ctx: &mut Ctx, case: &serde_json::Value) {
-    let c: Case = serde_json::from_value(json!({"entropy": case["entropy"], "defs_in_loop": case["defs_in_loop"]})).unwrap();
+    let c: Case = match serde_json::from_value(json!({"entropy": case["entropy"], "defs_in_loop": case["defs_in_loop"]})) {
+        Ok(c) => c,
+        Err(e) => {
+            ctx.health(false, format!("replay case does not deserialize: {}", e));
+            return;
+        }
+    };
     ctx.replay_one(&c, prop, case.clone());
 }
